@@ -39,6 +39,13 @@ BASE_NAMES = ("collections.OrderedDict", "collections.defaultdict")
 NEVER = ("verif_sink.sink",)
 # protocol-4 qualified names: a member of a permitted global is a different global, and is not
 # in the allowlist (resolved through STACK_GLOBAL, never called)
+# Python-2 spellings of allow-listed / addable globals, in a protocol-3 pickle (nothing is renamed
+# from protocol 3 on): never permitted
+PY2_SPELLED = {
+    "UserDict.OrderedDict": ("UserDict", "OrderedDict"),
+    "copy_reg._reconstructor": ("copy_reg", "_reconstructor"),
+    "cPickle.Counter": ("cPickle", "Counter"),
+}
 QUALIFIED = {
     "collections.OrderedDict.fromkeys": ("collections", "OrderedDict.fromkeys"),
     "collections.Counter.most_common": ("collections", "Counter.most_common"),
@@ -71,6 +78,9 @@ def restore_all():
 
 
 def probe_bytes(dotted):
+    if dotted in PY2_SPELLED:
+        module, name = PY2_SPELLED[dotted]
+        return b"\x80\x03" + f"c{module}\n{name}\n.".encode()
     if dotted in QUALIFIED:
         module, name = QUALIFIED[dotted]
         return (b"\x80\x04\x8c" + bytes([len(module)]) + module.encode() + b"\x8c" + bytes([len(name)])
@@ -138,6 +148,7 @@ class Model:
     def __init__(self):
         self.active = False
         self.current = frozenset()
+        self.armed = False  # always_check_safety() since the last (de)activation
 
     def expect_hooked(self, dotted):
         if not self.active:
@@ -158,10 +169,20 @@ def step(model, st):
         adds = list(st[1])
         hook.activate_safe_ml_environment(also_allow=adds or None)
         model.active, model.current = True, frozenset(adds)
+        model.armed = False
     elif kind == "deactivate":
         hook.deactivate_safe_ml_environment()
         model.active, model.current = False, frozenset()
+        model.armed = False
+    elif kind == "arm":
+        # the other guard is armed in between (it takes over pickle.load only)
+        import fickling
+
+        fickling.always_check_safety()
+        model.armed = True
     elif kind == "probe":
+        if model.armed and st[1] == "pickle.load":
+            return None  # that binding is the safety check's now, with its own criteria
         want = model.expect_hooked(st[2])
         got, detail, log = do_probe(st[1], st[2])
         if got != want:
@@ -222,7 +243,7 @@ def _machine(res, holder):
     from hypothesis.stateful import RuleBasedStateMachine, rule
 
     adds = st.lists(st.sampled_from(ADDABLE + ADDABLE + ADDABLE_RESOLVE_ONLY), max_size=3, unique=True).map(tuple)
-    names = st.sampled_from(BASE_NAMES + ADDABLE + ADDABLE + NEVER + ADDABLE_RESOLVE_ONLY + tuple(QUALIFIED))
+    names = st.sampled_from(BASE_NAMES + ADDABLE + ADDABLE + NEVER + ADDABLE_RESOLVE_ONLY + tuple(QUALIFIED) + tuple(PY2_SPELLED))
 
     class Env(RuleBasedStateMachine):
         def __init__(self):
@@ -250,6 +271,10 @@ def _machine(res, holder):
         @rule()
         def deactivate(self):
             self._do(("deactivate",))
+
+        @rule()
+        def arm(self):
+            self._do(("arm",))
 
         @rule(e=st.sampled_from(ENTRY), n=names)
         def probe(self, e, n):
